@@ -46,7 +46,8 @@ CANONICAL: t.Dict[str, t.Tuple[str, str, str]] = {
 
 # str methods and the case they give a single alphabetic word (the property's words are alphabetic, so
 # capitalize == title and casefold == lower on them)
-CASE_METHODS = {'lower': 'lower', 'casefold': 'lower', 'upper': 'upper', 'title': 'title', 'capitalize': 'title'}
+# (casefold is not lower: 'ß'.casefold() == 'ss', final sigma folds to sigma - a lowercase word is changed by it)
+CASE_METHODS = {'lower': 'lower', 'casefold': 'casefold', 'upper': 'upper', 'title': 'title', 'capitalize': 'title'}
 
 
 class Anchors:
